@@ -16,6 +16,8 @@ def run(ctx):
 
     pans = [rnd_digits(rng, n) for n in range(13, 25)] + ["0" * 13, "9" * 19, "1234567890123"]
     pans4 = [rnd_digits(rng, n) for n in range(1, 20)] + ["0", "9" * 19, "0" * 12, "1" * 13]
+    pans4 += ["0" + rnd_digits(rng, n - 1) for n in range(2, 20)] + ["00" + "".join(rng.choice("123456789") for _ in range(n - 2)) for n in (13, 14, 16, 19)]
+    pans += ["0" + rnd_digits(rng, n - 1) for n in (13, 16, 19)] + [rnd_digits(rng, n - 13) + "0000000000000" for n in (13, 16)]
     for L in range(4, 13):
         for rep in range(ctx.n(3, 12)):
             pin = rnd_digits(rng, L) if rep else ("9" * L)
@@ -50,7 +52,7 @@ def run(ctx):
             else:
                 lines.append(core.model_line("encode_pin_field_iso_4", (pin, f4[1][8:])))
                 expect.append("OK " + core.show(o.from_nibbles(o.pin_field4_nibbles(pin, f4[1][8:]))))
-            for pan4 in (pans4 if ctx.thorough else rng.sample(pans4, 4)):
+            for pan4 in (pans4 if ctx.thorough else rng.sample(pans4, 6)):
                 seen.add(("f4", pin, pan4))
                 key = rng.randbytes(rng.choice((16, 24, 32)))
                 e4 = call(pinblock.encipher_pinblock_iso_4, key, pin, pan4)
